@@ -17,7 +17,7 @@ RULE = ("a case is one honest history (all peers run the same generated well-sco
         "c04_oracle is evaluated on the implementation's code. Oracle: the ret_code of no run is in the GENERATED list of "
         "data-consistency error codes (tools/genx_consistency.py). evaluations = runs of execute_air; distinct non-trivial = "
         "(script, mode, explored states) with at least one run that merged two non-empty data. A separate stream with "
-        "%last_error% as a call argument exercises the known finding last-error-peer-id-argument.")
+        "%last_error% as a call argument exercises the known finding last-error-as-call-argument.")
 PARTIAL = ["C04_full (no data-consistency error in any honest history, any schedule) is a history-level statement kept as a "
            "Definition in model/KeepSpec.v: it is DECIDED by the state-level theorems (C04_call_compat, C04_canon_compat, "
            "C04_merger_compat: states that approximate one full state always merge, for call, canon and ap states, all inputs) "
@@ -73,7 +73,7 @@ def gen_cases(rng, tier, escalate=False):
         c = exec_common.history_case(rng, prof, n_ops=rng.choice([8, 14]), oracles=[])
         c["kind"] = "exec"
         cases.append(c)
-    # separate stream: %last_error% as a call argument (known finding last-error-peer-id-argument)
+    # separate stream: %last_error% as a call argument (known finding last-error-as-call-argument)
     for k in range((30 if quick else 400) * mul):
         prof = profiles(rng, last_error=True)
         script = airgen.gen_script(rng, prof)
